@@ -18,6 +18,9 @@ for mid in ids:
         checks = allchecks
     elif a.checks == "own":
         checks = [meta["property"]]
+    elif a.checks == "family":  # core changes against the 17 core checks, plugin changes against the plugin checks
+        core = [c for c in allchecks if c <= "C17"]
+        checks = core if meta["property"] <= "C17" else [c for c in allchecks if c > "C17"]
     else:
         checks = a.checks.split(",")
     out = subprocess.run([os.path.join(root, "scripts", "mutrun.sh"), os.path.join(mdir, "patch.diff"), a.tier] + checks,
